@@ -238,8 +238,11 @@ class Model():
             )
 
         # First remove all of the associations
-        for association in asset.associations:
-            self.remove_asset_from_association(asset, association)
+        for association in list(asset.associations):
+            # An asset that is on both sides of an association lists it
+            # twice, it may already have been handled by now.
+            if association in asset.associations:
+                self.remove_asset_from_association(asset, association)
 
         # Also remove all of the entry points
         for attacker in self.attackers:
